@@ -13,6 +13,7 @@ L3: the property itself is evaluated on the implementation's trace (exactly-once
     each delivered job dumped once).
 """
 import asyncio
+import copy
 import csv
 import json
 import os
@@ -30,9 +31,30 @@ PROP = "C01"
 # --------------------------------------------------------------------------- run-functions
 
 
+FLAT = ("x", "tag", "fail", "d", "prio", "form")  # the other keys of a configuration hold nested mutable values
+
+
+def nested_part(cfg):
+    return {k: v for k, v in cfg.items() if k not in FLAT}
+
+
+def weight(v):
+    """sum of the integers inside a nested value"""
+    if isinstance(v, bool):
+        return 0
+    if isinstance(v, int):
+        return v
+    if isinstance(v, dict):
+        return sum(weight(x) for x in v.values())
+    if isinstance(v, (list, tuple)):
+        return sum(weight(x) for x in v)
+    return 0
+
+
 def value(cfg):
-    """what the run-function returns for a configuration (Drivers/C01.lean `runF` is the same)"""
-    return "F_" + cfg["tag"] if cfg["fail"] else 3.0 * cfg["x"] + 0.5
+    """what the run-function returns for a configuration (Drivers/C01.lean `runF` is the same): it depends on
+    the nested values too, so a run-function that saw a later edit of the caller's object is visible"""
+    return "F_" + cfg["tag"] if cfg["fail"] else 3.0 * cfg["x"] + 0.5 + 16.0 * weight(nested_part(cfg))
 
 
 def returned(job):
@@ -149,6 +171,7 @@ def _canon_out(out, hpo):
 def _canon_job(job, hpo):
     a = job.args
     return {"id": _jid(job.id), "x": a.get("x"), "tag": a.get("tag"), "fail": a.get("fail"),
+            "nest": common.canon(nested_part(a)), "w": weight(nested_part(a)),
             "out": _canon_out(job.output, hpo), "status": job.status.name}
 
 
@@ -172,6 +195,8 @@ class Real:
             with open(os.path.join(self.dir, "results.csv"), "w") as f:
                 f.write(self.PRE)
         self.rows_seen = 0
+        self.pool = {}        # the caller's configuration objects (identity matters: reused and edited)
+        self.handed = []      # job objects the gathers handed to the caller
         self.cfg_by_x = {}
         self.reg = {}
         self.prio = {}
@@ -222,12 +247,58 @@ class Real:
         th = None
         try:
             if kind == "submit":
+                objs = []
                 for c in op["cfgs"]:
-                    self.cfg_by_x[c["x"]] = c
+                    k = c.get("obj")
+                    if k is not None and k in self.pool:
+                        o = self.pool[k]  # the SAME object again, possibly with top-level edits for the new job
+                        o.update(c.get("set", {}))
+                    else:
+                        o = copy.deepcopy({a: b for a, b in c.items() if a not in ("obj", "set")})
+                        if k is not None:
+                            self.pool[k] = o
+                    objs.append(o)
+                    self.cfg_by_x[o["x"]] = o
                     if self.backend == "thread":
-                        self.reg[c["x"]] = {"entered": threading.Event(), "release": threading.Event(), "finished": threading.Event()}
-                        self.prio[c["x"]] = c.get("prio", 0)
-                ev.submit([dict(c) for c in op["cfgs"]])
+                        self.reg[o["x"]] = {"entered": threading.Event(), "release": threading.Event(), "finished": threading.Event()}
+                        self.prio[o["x"]] = o.get("prio", 0)
+                truth = [copy.deepcopy(o) for o in objs]  # ground truth: the configurations as submitted
+                ev.submit(objs)  # the caller's own objects, not copies
+            elif kind == "mutate":
+                # the caller goes on editing an object it submitted earlier (before any gather ran it)
+                o = self.pool.get(op["obj"])
+                if o is not None:
+                    how = op["how"]
+                    if how == "append" and isinstance(o.get("layers"), list):
+                        o["layers"].append(op.get("v", 7))
+                    elif how == "clear" and isinstance(o.get("layers"), list):
+                        o["layers"].clear()
+                    elif how == "opts" and isinstance(o.get("opts"), dict):
+                        o["opts"]["lr"] = op.get("v", 7)
+                        o["opts"].pop("act", None)
+                    elif how == "blocks" and o.get("blocks"):
+                        o["blocks"][0]["u"] = op.get("v", 7)
+                        o["blocks"].append({"u": 1})
+                    elif how == "top":
+                        o["tag"] = "edited"
+                        o["extra"] = [op.get("v", 7)]
+            elif kind == "mutate_returned":
+                # the caller edits jobs it was handed (only those whose row is already written: the job
+                # objects awaiting a dump are shared with the caller by design)
+                waiting = {id(j) for j in ev.jobs_done}
+                for jb in self.handed:
+                    if id(jb) in waiting:
+                        continue
+                    for v in jb.args.values():
+                        if isinstance(v, list):
+                            v.append(99)
+                        elif isinstance(v, dict):
+                            v["edited"] = 99
+                    jb.args["extra2"] = [1, 2, 3]
+                    if isinstance(jb.output, dict):
+                        jb.output["objective"] = "garbled"
+                    else:
+                        jb.output = "garbled"
             elif kind == "gather":
                 if self.backend == "thread":
                     th = threading.Thread(target=self._director, args=(stop, op.get("bursts") or [1]), daemon=True)
@@ -238,8 +309,9 @@ class Real:
                            "other": [_canon_job(j, self.hpo) for j in res[1]]}
                 else:
                     out = {"kind": "jobs", "jobs": [_canon_job(j, self.hpo) for j in res]}
-                    out["_args"] = [j.args for j in res]
-                    out["_outputs"] = [j.output for j in res]
+                    out["_args"] = [copy.deepcopy(j.args) for j in res]
+                    out["_outputs"] = [copy.deepcopy(j.output) for j in res]
+                    self.handed.extend(res)
             elif kind == "close":
                 ev.close()
                 if self.backend == "thread":  # free the worker threads of the cancelled evaluations
@@ -273,6 +345,8 @@ class Real:
         elif kind == "close":
             env["finished"] = waits[-1] if waits else []
         obs = {"out": out, "env": env, "before": before, **self.snapshot()}
+        if kind == "submit" and exc is None:
+            obs["truth"] = truth
         return obs
 
     def _new_rows(self):
@@ -345,13 +419,15 @@ def oracle(case, trace):
     closed_with_jobs = False
     for i, (op, obs) in enumerate(zip(case["ops"], trace)):
         kind, out = op["op"], obs["out"]
+        if kind.startswith("mutate"):
+            continue  # the caller edits its own objects: not a call of the evaluator
         inflight = len(submitted) - len(delivered)
         done_before = len(pending_dump)
         if kind == "submit":
             if out["kind"] == "error":
                 bad.append(("no-exception", i, out["msg"]))
                 break
-            submitted.extend(op["cfgs"])
+            submitted.extend(obs["truth"])  # the configurations as they were when submitted
         elif kind == "gather":
             size = inflight if op["all"] else op["k"]
             if out["kind"] == "error":
@@ -412,7 +488,8 @@ def oracle(case, trace):
                         bad.append(("close-record", i, f"finished job {j['id']} recorded as {j['status']} / {j['out']}"))
                 elif j["status"] != "CANCELLED" or j["out"] != exp_canc:
                     bad.append(("close-record", i, f"unfinished job {j['id']} recorded as {j['status']} / {j['out']}"))
-                if (j["x"], j["tag"], j["fail"]) != (cfg["x"], cfg["tag"], cfg["fail"]):
+                w = _cfg_wire(cfg)
+                if (j["x"], j["tag"], j["fail"], j["nest"], j["w"]) != (w["x"], w["tag"], w["fail"], w["nest"], w["w"]):
                     bad.append(("payload-config", i, f"job {j['id']} carries another configuration"))
             pending_dump.extend(j["id"] for j in new)
             if len(delivered) != len(submitted):
@@ -467,18 +544,62 @@ def _mk_cfg(rng, x, backend, hpo=False):
         c["form"] = "objdict"
     if backend == "thread":
         c["prio"] = rng.randint(0, 9)
+    if rng.random() < 0.45:  # nested mutable values: a list, a dict, a list of dicts
+        if rng.random() < 0.7:
+            c["layers"] = [rng.randint(1, 4) for _ in range(rng.randint(0, 3))]
+        if rng.random() < 0.4:
+            c["opts"] = {"lr": rng.randint(1, 3), "act": "relu"}
+        if rng.random() < 0.3:
+            c["blocks"] = [{"u": rng.randint(1, 3)} for _ in range(rng.randint(1, 2))]
     return c
+
+
+def _submit_op(rng, x, n, backend, hpo, pool):
+    """a submit of n jobs: fresh configurations, the same object twice in one batch, an object of an earlier
+    batch again (edited for the new job); `pool` = obj id -> its initial content"""
+    cfgs = []
+    t = 0
+    while t < n:
+        r = rng.random()
+        if pool and r < 0.2:
+            k = rng.choice(sorted(pool))
+            base = _mk_cfg(rng, x + t, backend, hpo)
+            c = {**{a: b for a, b in pool[k].items() if a not in FLAT}, **{a: base[a] for a in FLAT if a in base}}
+            c["obj"] = k
+            c["set"] = {a: base[a] for a in ("x", "tag", "fail", "d", "prio") if a in base}
+        else:
+            c = _mk_cfg(rng, x + t, backend, hpo)
+            if nested_part(c) or rng.random() < 0.3:
+                c["obj"] = len(pool)
+                pool[c["obj"]] = {a: b for a, b in c.items() if a != "obj"}
+        cfgs.append(c)
+        t += 1
+        if "obj" in c and backend != "thread" and t < n and rng.random() < 0.25:
+            cfgs.append({a: b for a, b in c.items() if a != "set"})  # the very same object once more
+            t += 1
+    return {"op": "submit", "cfgs": cfgs}, t
+
+
+def _mutations(rng, pool, p=0.4):
+    out = []
+    while pool and rng.random() < p:
+        out.append({"op": "mutate", "obj": rng.choice(sorted(pool)), "how": rng.choice(["append", "clear", "opts", "blocks", "top"]),
+                    "v": rng.randint(5, 9)})
+    return out
 
 
 def gen_case(rng, backend, maxlen, malformed=False):
     n_ops = rng.randint(2, maxlen)
     hpo = rng.random() < 0.5
     ops, x, inflight = [], 0, 0
+    pool = {}
     for _ in range(n_ops):
         r = rng.random()
         if r < 0.32 or (not ops and r < 0.8):
             n = rng.choice([0, 1, 1, 2, 2, 3, 4, 5]) if malformed or rng.random() < 0.1 else rng.choice([1, 1, 2, 2, 3, 4, 5])
-            ops.append({"op": "submit", "cfgs": [_mk_cfg(rng, x + t, backend, hpo) for t in range(n)]})
+            op, n = _submit_op(rng, x, n, backend, hpo, pool)
+            ops.append(op)
+            ops.extend(_mutations(rng, pool))  # the caller goes on editing what it has just submitted
             x += n
             inflight += n
         elif r < 0.47:
@@ -499,11 +620,16 @@ def gen_case(rng, backend, maxlen, malformed=False):
             ops.append({"op": "dump", "flush": rng.random() < 0.3})
             if rng.random() < 0.2:
                 ops[-1]["alias"] = True
-        if ops[-1]["op"] == "gather" and backend == "thread":
+            if rng.random() < 0.3:
+                ops.append({"op": "mutate_returned"})
+        if rng.random() < 0.1:
+            ops.extend(_mutations(rng, pool, 0.9))
+        if ops and ops[-1]["op"] == "gather" and backend == "thread":
             ops[-1]["bursts"] = [rng.choice([1, 1, 2, 3]) for _ in range(3)]
     # probe: the evaluator must stay usable after close, and everything is accounted for at the end
     n = rng.choice([1, 2, 3])
-    ops += [{"op": "close"}, {"op": "submit", "cfgs": [_mk_cfg(rng, x + t, backend, hpo) for t in range(n)]}]
+    op, n = _submit_op(rng, x, n, backend, hpo, pool)
+    ops += [{"op": "close"}, op] + _mutations(rng, pool)
     ops += [{"op": "gather", "all": False, "k": 1}] if rng.random() < 0.5 else []
     ops += [{"op": "gather", "all": True, "k": 0}, {"op": "dump", "flush": True}, {"op": "close"}]
     for o in ops:
@@ -519,15 +645,18 @@ def gen_case(rng, backend, maxlen, malformed=False):
 
 
 def _cfg_wire(c):
-    return {"x": c["x"], "tag": c["tag"], "fail": c["fail"]}
+    return {"x": c["x"], "tag": c["tag"], "fail": c["fail"], "nest": common.canon(nested_part(c)),
+            "w": weight(nested_part(c))}
 
 
 def lean_requests(case, trace, pre=False):
     reqs = [{"op": "init", "hpo": case["hpo"], "pre": pre}]
     for op, obs in zip(case["ops"], trace):
         k = op["op"]
-        if k == "submit":
-            reqs.append({"op": "submit", "cfgs": [_cfg_wire(c) for c in op["cfgs"]]})
+        if k.startswith("mutate"):
+            reqs.append({"op": "noop"})
+        elif k == "submit":
+            reqs.append({"op": "submit", "cfgs": [_cfg_wire(c) for c in obs.get("truth", op["cfgs"])]})
         elif k == "gather":
             reqs.append({"op": "gather", "all": op["all"], "k": op["k"], "started": obs["env"]["started"],
                          "waits": obs["env"].get("waits", [])})
@@ -540,11 +669,14 @@ def lean_requests(case, trace, pre=False):
 
 def lean_trace(case, trace):
     """the observable trace (no environment input) in the wire form of `Model/EvaluatorTrace.lean`"""
-    steps = []
-    for op, obs in zip(case["ops"], trace):
+    steps, index = [], []
+    for i, (op, obs) in enumerate(zip(case["ops"], trace)):
         k, out = op["op"], obs["out"]
+        if k.startswith("mutate"):
+            continue
+        index.append(i)
         if k == "submit":
-            call = {"op": "submit", "cfgs": [_cfg_wire(c) for c in op["cfgs"]]}
+            call = {"op": "submit", "cfgs": [_cfg_wire(c) for c in obs.get("truth", op["cfgs"])]}
         elif k == "gather":
             call = {"op": "gather", "all": op["all"], "k": op["k"]}
         else:
@@ -561,16 +693,17 @@ def lean_trace(case, trace):
             res = {"kind": "error", "err": "other"}
         steps.append({"call": call, "res": res, "num_submitted": obs["num_submitted"], "num_gathered": obs["num_gathered"],
                       "jobs_done": obs["jobs_done"]})
-    return {"op": "check", "hpo": case["hpo"], "trace": steps}
+    return {"op": "check", "hpo": case["hpo"], "trace": steps}, index
 
 
 def lean_failure(case, trace, d):
     """(fingerprint, clause, call index, detail) from the verified checker `checkTrace` run on the
     implementation's trace, or None when the trace satisfies TraceSpec"""
-    rep = d.ask(lean_trace(case, trace))
+    req, index = lean_trace(case, trace)
+    rep = d.ask(req)
     if rep["spec"]:
         return None
-    i, clause = rep["first_bad"], rep["clause"]
+    i, clause = index[rep["first_bad"]], rep["clause"]
     detail = f"checkTrace = false: clause {clause} at call {i}"
     out = trace[i]["out"]
     if out["kind"] == "error":
@@ -594,6 +727,9 @@ def compare(case, trace, reps):
         mine = {"out": _strip(obs["out"]), "num_submitted": obs["num_submitted"], "num_gathered": obs["num_gathered"],
                 "jobs_done": obs["jobs_done"], "statuses": obs["statuses"]}
         model = {k: rep[k] for k in mine}
+        if mine["out"].get("kind") == "rows":
+            model["out"] = {"kind": "rows", "jobs": [{k: v for k, v in j.items() if k not in ("nest", "w")}
+                                                     for j in model["out"].get("jobs", [])]}
         if rep["other"]:
             return {"op": i, "what": "model: gather_other_jobs_done would return jobs", "other": rep["other"]}
         if json.loads(common.canon(mine)) != json.loads(common.canon(model)):
@@ -649,7 +785,9 @@ def shrink(case, spy, vt, fp, budget=80):
                 if ok:
                     cur, changed = cand, True
                     break
-    # renumber x so that job id k carries x = k
+    # renumber x so that job id k carries x = k (not when objects are reused: x is part of the edits)
+    if any("obj" in c for op in cur["ops"] if op["op"] == "submit" for c in op["cfgs"]):
+        return cur
     x = 0
     for op in cur["ops"]:
         if op["op"] == "submit":
